@@ -14,6 +14,8 @@ RULE = ("form: one Hash call judged against 'v1_' + tag + '_' + hex(BLAKE3(canon
         "circular / double-stranded flags), pairs of invalid letters, invalid letter + invalid type, non-ASCII letters including U+017F and U+0131 "
         "(which Unicode upper-casing folds to S and I). thorough: NP=9, LF=6, LP=3; quick: NP=5, LF=4, LP=2. Then random accepted inputs to 1200 "
         "letters (with U and Z under DNA), a few long ones (linear to 10^5, circular to 5000) and structured inputs (gen/seqfam.py: reverse-palindromes, near-palindromes, odd centre, periodic words). "
+        "EXHAUSTIVE (thorough) refers to these families: the ACGT^n partitions for n <= 9 x 4 flag pairs (the property's 'all 4^n DNA strings, partition by "
+        "hash = brute-force orbit partition'), protein strings to length 3, every single ASCII letter; form cases are exhaustive only to length LF. "
         "non-trivial = accepted input of length >= 2; distinct by case text")
 EXHAUSTIVE = {"quick": False, "thorough": True}
 TRUSTED_BASE = ["collision-freeness of BLAKE3 is a hypothesis (Function.Injective blake) of the separation theorem, not an axiom",
@@ -25,9 +27,14 @@ ASSUMPTIONS = ["BLAKE3 has no collisions among the inputs explored (hypothesis o
                "non-ASCII input is rejected by the first statement of Hash (modelled explicitly); on ASCII the model's upper-casing is Go's strings.ToUpper"]
 PARTIAL = ["separation clause: hash_inj at full strength is REFUTED on the model of the code (Props/C05 hash_inj_dna_u_witness, known finding "
            "C05-dna-u-strand: U is accepted under type DNA and complements to A like T, so double-stranded DNA inputs differing only in U vs T "
-           "collide). Proved instead: hash_inj_partial / model_hash_inj_partial, the same statement under the hypothesis that excludes exactly "
-           "that class (double-stranded AND type DNA AND a U in the sequence); Z and all other accepted letters are covered; "
-           "hash_inj_general is the unconditional weaker statement. Form, hex length and the three rejection clauses are proved in full."]
+           "collide). Proved instead: hash_inj_partial / model_hash_inj_partial under a SUFFICIENT hypothesis (double-stranded DNA inputs contain no "
+           "U; this also excludes harmless inputs such as ACU), and hash_collision_class / model_hash_collision_class, unconditional, which gives "
+           "the EXACT residue: two accepted inputs with equal hashes are the same molecule, or they are double-stranded DNA, one contains U, and "
+           "they have the same other strand up to rotation (= the driver's class predicate knownSep). Z and all other letters are covered.",
+           "completeness (same molecule => same hash; with C04 it makes hash partition = orbit partition): REFUTED in the same class "
+           "(hash_same_molecule_dna_u_witness: CUC and GAG, linear double-stranded DNA, GAG = rc CUC, different hashes for every injective digest). "
+           "Proved: hash_same_molecule_partial under 'double-stranded DNA inputs contain no U' (Z covered).",
+           "Form, hex length and the three rejection clauses are proved in full."]
 TIMEOUT_MS = 120000
 
 PROT = "ACDEFGHIKLMNPQRSTVWYUO*BXZ"
@@ -61,6 +68,10 @@ def cases(seed, tier):
         for n in range(1, NI + 1):
             yield ["partition", IUPAC15, str(n), "DNA", c, d]
     yield ["partition", "ACGU", "3", "DNA", "false", "true"]
+    for (c, d) in FLAGS:       # mixed case: two spellings of one normal form (consistency), u under double-stranded DNA
+        yield ["partition", "ACGTUu", "2", "DNA", c, d]
+        yield ["partition", "acgTu", "2" if quick else "3", "DNA", c, d]
+        yield ["partition", "aCgtUu", "2", "RNA", c, d]
     yield ["partition", "ACDEFGHIKLMNPQRSTVWY", "2", "PROTEIN", "true", "false"]
     yield ["partition", "ACDEFGHIKLMNPQRSTVWY", "2", "PROTEIN", "false", "false"]
     # --- rejections: every single ASCII code point as a letter, first / middle / last position, each type
